@@ -385,6 +385,75 @@ pub fn valset_case(perm: usize, via_update: bool) -> Case {
     }
 }
 
+/// C09 over spellings: bech32 allows an all-upper-case spelling, which configuration validation accepts and stores
+/// verbatim; ibc-hooks hashes the packet's sender string as it is, so the accepted account is the one derived from the
+/// configured spelling and the account of the other spelling is a different (refused) one.
+pub fn spelling_case(upper_staker: bool, upper_collector: bool, via_update: bool) -> Case {
+    Case {
+        name: format!("cfgmat:hookauth:spelling:{}{}:{}", if upper_staker { "S" } else { "s" }, if upper_collector { "C" } else { "c" }, if via_update { "update" } else { "init" }),
+        run: Box::new(move |f: &Filter, _mw: bool| {
+            let who = Who::new(false);
+            let fee = Uint128::new(symcore::var("fee_rate"));
+            let min = Uint128::new(symcore::var("min_stake"));
+            let mut msg = scen::init_msg(&who, &CfgSpec { treasury: false, oracle: false, same_prefix: false, stopped: false, variant: 0 }, fee, min);
+            msg.monitors = vec![];
+            let staker_cfg = if upper_staker { who.staker.to_uppercase() } else { who.staker.clone() };
+            let collector_cfg = if upper_collector { who.collector.to_uppercase() } else { who.collector.clone() };
+            let mut native = msg.native_chain_config.clone();
+            native.staker_address = staker_cfg.clone();
+            native.reward_collector_address = collector_cfg.clone();
+            if !via_update {
+                msg.native_chain_config = native.clone();
+            }
+            let (mut chain, ok) = instantiate_with(f, msg, &who);
+            claim(f, "C09:an all-upper-case bech32 spelling of a native address is accepted by configuration validation", ok);
+            if !ok {
+                symcore::note("outcome=err".into());
+                return;
+            }
+            if via_update {
+                let r = chain.execute(&who.admin.clone(), &[], ExecuteMsg::UpdateConfig { native_chain_config: Some(native), protocol_chain_config: None, protocol_fee_config: None, monitors: None, batch_period: None });
+                claim(f, "C09:an all-upper-case bech32 spelling of a native address is accepted by a configuration update", r.is_ok());
+            }
+            {
+                let st = &mut chain.deps.storage;
+                let mut cfg = staking::state::CONFIG.load(st).unwrap();
+                claim(f, "C09:native addresses are stored in the configured spelling, verbatim", cfg.native_chain_config.staker_address.as_str() == staker_cfg && cfg.native_chain_config.reward_collector_address.as_str() == collector_cfg);
+                cfg.stopped = false;
+                staking::state::CONFIG.save(st, &cfg).unwrap();
+                let mut state = staking::state::STATE.load(st).unwrap();
+                state.total_native_token = Uint128::new(1000);
+                state.total_liquid_stake_token = Uint128::new(1000);
+                staking::state::STATE.save(st, &state).unwrap();
+                let mut b = staking::state::BATCHES.load(st, 1).unwrap();
+                b.update_status(milky_way::staking::BatchStatus::Submitted, Some(0));
+                b.expected_native_unstaked = Some(Uint128::new(10));
+                staking::state::BATCHES.save(st, 1, &b).unwrap();
+            }
+            let x = Uint128::new(symcore::var("x"));
+            symcore::assume(crate::t::le(&crate::t::ut(x), crate::t::E27));
+            symcore::assume(crate::t::ge(&crate::t::ut(x), "1"));
+            let funds = [crate::world::coin(addr::NATIVE_DENOM, x)];
+            let unauthorized = |r: &crate::world::Tx| matches!(r, crate::world::Tx::Err(e) if e.contains("Unauthorized"));
+            let other = |cfgd: &str, base: &str| if cfgd == base { base.to_uppercase() } else { base.to_string() };
+            // the other spelling first (an accepted ReceiveUnstakedTokens consumes the batch)
+            let hc_other = addr::hook_sender(addr::CHANNEL, &other(&collector_cfg, &who.collector), &who.pp);
+            let hs_other = addr::hook_sender(addr::CHANNEL, &other(&staker_cfg, &who.staker), &who.pp);
+            let r = chain.execute(&hc_other, &funds, ExecuteMsg::ReceiveRewards {});
+            claim(f, "C09:ReceiveRewards refuses the ibc-hooks account of the collector's other spelling", unauthorized(&r));
+            let r = chain.execute(&hs_other, &funds, ExecuteMsg::ReceiveUnstakedTokens { batch_id: 1 });
+            claim(f, "C09:ReceiveUnstakedTokens refuses the ibc-hooks account of the staker's other spelling", unauthorized(&r));
+            let hc = addr::hook_sender(addr::CHANNEL, &collector_cfg, &who.pp);
+            let hs = addr::hook_sender(addr::CHANNEL, &staker_cfg, &who.pp);
+            let r = chain.execute(&hc, &funds, ExecuteMsg::ReceiveRewards {});
+            claim(f, "C09:ReceiveRewards accepts the ibc-hooks account of the collector as configured (spelling verbatim)", !unauthorized(&r) && !matches!(r, crate::world::Tx::Panic(_)));
+            let r = chain.execute(&hs, &funds, ExecuteMsg::ReceiveUnstakedTokens { batch_id: 1 });
+            claim(f, "C09:ReceiveUnstakedTokens accepts the ibc-hooks account of the staker as configured (spelling verbatim)", !unauthorized(&r) && !matches!(r, crate::world::Tx::Panic(_)));
+            symcore::note("outcome=ok".into());
+        }),
+    }
+}
+
 pub fn cases(tier: &str) -> Vec<Case> {
     let mut v = vec![];
     let cfgs = if tier == "thorough" { vec![CfgSpec::base(), CfgSpec { same_prefix: true, ..CfgSpec::base() }] } else { vec![CfgSpec::base(), CfgSpec { same_prefix: true, ..CfgSpec::base() }] };
@@ -399,6 +468,12 @@ pub fn cases(tier: &str) -> Vec<Case> {
     for perm in 0..6 {
         v.push(valset_case(perm, false));
         v.push(valset_case(perm, true));
+    }
+    for us in [false, true] {
+        for uc in [false, true] {
+            v.push(spelling_case(us, uc, false));
+            v.push(spelling_case(us, uc, true));
+        }
     }
     for i in 0..channel_ids().len() {
         v.push(channel_auth_case(i, false));
